@@ -178,6 +178,9 @@ def model_case(cid: str, seed: int, k: int, tier: str) -> dict[str, Any]:
     target = {"url": "c12inproc://target", "ecu_name": "tgt", "props": TARGET_PROPS, "steps": h["steps"],
               "peer": {"kind": "model", "seed": mseed, "params": params, "drops": h["drops"], "idles": h["idles"]},
               "oob": [r.randrange(1, n)] if (k % 25 == 7 and n > 1) else []}
+    if k % 7 in (3, 4) and n > 2:
+        # the client reconnected its transport in the middle of the history (the ECU is not affected)
+        target["reconn"] = sorted({L.rnd(seed, "reconn", k).randrange(1, n) for _ in range(2)})
     if k % 5 == 2:
         target["tp"] = True  # recorded while a second task of the client keeps sending TesterPresent
     case: dict[str, Any] = {"id": cid, "target": target, "second_pass": k % 4 == 0 and not target.get("tp")}
